@@ -178,6 +178,7 @@ func (g *chainGen) buildLevel(depth int, initial Files, signers []*TestKey, name
 	var rootIDs []string
 	rootcas := JObj{}
 	intercas := JObj{}
+	selfRefStep := ""
 	var needFix []needsCallerFix
 	var callerInters []string
 	_ = callerInters
@@ -211,6 +212,22 @@ func (g *chainGen) buildLevel(depth int, initial Files, signers []*TestKey, name
 		var fs []*TestKey
 		for k := 0; k < nf; k++ {
 			fs = append(fs, pool()[perm[k]])
+		}
+		if cfg.Degenerate && top && i == 0 && len(signers) > 0 && rng.Chance(15) {
+			// hostile link directory: the signed LAYOUT ITSELF lies there as the "link" of a functionary
+			// of its own first step (the layout signer is authorized for that step); there is no
+			// sublayout directory: an ordinary error - not a layout that verifies itself without end
+			// (seeded change c15-sublayout-falls-back-to-own-dir-recursion)
+			selfRefStep = name
+			present := false
+			for _, f := range fs {
+				present = present || f == signers[0]
+			}
+			if !present {
+				fs = append(fs, signers[0])
+				nf++
+			}
+			lv.Feat = append(lv.Feat, "layout-as-own-link")
 		}
 		if sameAsParent && g.parentFunc != nil {
 			for k := range fs {
@@ -904,6 +921,9 @@ func (g *chainGen) buildLevel(depth int, initial Files, signers []*TestKey, name
 	}
 	lv.Payload, lv.DSSE = layout, dsse
 	lv.LayoutFile = g.wrapSign(layout, dsse, specs)
+	if selfRefStep != "" {
+		files[selfRefStep+"."+shortID(signers[0].ID)+".link"] = WriteJ(lv.LayoutFile, nil, false)
+	}
 	lv.Dir = map[string]any{"files": files, "subs": subs}
 	if top {
 		lv.Dir["caller_inters"] = callerInters
